@@ -215,6 +215,11 @@ func init() {
 	reg("runtime.NumGoroutine", func(m *Machine, fr *frame, a []Value) Value { return BV(64, 1) })
 	reg("runtime.GOMAXPROCS", func(m *Machine, fr *frame, a []Value) Value { return BV(64, 1) })
 	reg("runtime.NumCPU", func(m *Machine, fr *frame, a []Value) Value { return BV(64, 1) })
+	// stack introspection (error wrappers record their caller): no frames are reported
+	reg("runtime.Callers", func(m *Machine, fr *frame, a []Value) Value { return BV(64, 0) })
+	reg("runtime.Caller", func(m *Machine, fr *frame, a []Value) Value {
+		return Tuple{BV(64, 0), Str{}, BV(64, 0), TFalse}
+	})
 	reg("internal/abi.NoEscape", func(m *Machine, fr *frame, a []Value) Value { return a[0] })
 	reg("internal/abi.Escape", func(m *Machine, fr *frame, a []Value) Value { return a[0] })
 	reg("internal/race.Enabled", func(m *Machine, fr *frame, a []Value) Value { return TFalse })
